@@ -143,5 +143,9 @@ def main(argv):
                      "suite": suite[0], "build_failed": res["build_failed"]})
     with open(os.path.join(vlib.ensure(vlib.WORK), "selftest.json"), "w") as f:
         json.dump(rows, f, indent=1)
+    if not only:
+        dest = os.path.join(vlib.VERIF, "seeded" if "--seeded" in argv else "mutants", "results.json")
+        with open(dest, "w") as f:
+            json.dump({"tier": "quick", "seed": 1, "rows": rows}, f, indent=1)
     print("selftest: %d mutants, %d missed" % (len(rows), bad))
     return 1 if bad else 0
